@@ -221,6 +221,12 @@ class Tr:
     def call(self, e):
         f = e.func
         if isinstance(f, ast.Name):
+            if f.id in ("min", "max") and len(e.args) == 2 and not e.keywords:
+                a, ka = self.expr(e.args[0])
+                b, kb = self.expr(e.args[1])
+                if (ka, kb) != ("Z", "Z"):
+                    raise Unrecognised(f"{f.id} of {ka}, {kb}")
+                return (f"(Z.{f.id} {a} {b})", "Z")
             if f.id in ("min", "max") and len(e.args) == 1 and not e.keywords:
                 a, k = self.expr(e.args[0])
                 if k != "listZ":
@@ -349,6 +355,15 @@ class Tr:
             ca = "_" if a == "_" else self.bind(a, "set")
             cb = "_" if b == "_" else self.bind(b, "optZ")
             return f"let '({ca}, {cb}) := gen_get_first_wakeups {self.env['self.wakeups'][0]} in\n  {self.block(rest, ret)}"
+        if isinstance(s, ast.Expr) and isinstance(s.value, ast.Call) and ast.unparse(s.value.func) == "self.add_wakeup" \
+                and len(s.value.args) == 2 and not s.value.keywords and "self.wakeups" in self.env:
+            a, ka = self.expr(s.value.args[0])
+            b, kb = self.expr(s.value.args[1])
+            if (ka, kb) != ("pos", "Z"):
+                raise Unrecognised(f"add_wakeup({ka}, {kb})")
+            d = self.env["self.wakeups"][0]
+            c = self.bind("self.wakeups", "dict")
+            return f"let {c} := gen_add_wakeup {d} {a} {b} in\n  {self.block(rest, ret)}"
         # ---- nested default dictionaries of Model/Wiring.v
         if isinstance(s, ast.Expr) and isinstance(s.value, ast.Subscript):               # wiring[c]: creates the entry
             n, idx = self.subscripts(s.value)
@@ -551,6 +566,15 @@ def translate(spec):
     body = fn.body
     if "extract" in spec:
         return spec["extract"](tr, fn, args, spec)
+    if "given" in spec:
+        # the first assignment to this local (real-time arithmetic, not translated) is taken as given: a parameter
+        name, kind = spec["given"]
+        idx = [i for i, st in enumerate(body) if isinstance(st, ast.Assign) and len(st.targets) == 1 and tr.name_of(st.targets[0]) == name]
+        if len(idx) != 1 or any(isinstance(st, (ast.Assign, ast.AugAssign, ast.For, ast.If, ast.While, ast.Return)) for st in body[:idx[0]]):
+            raise Unrecognised(f"{name} is not assigned exactly once, first")
+        body = body[idx[0] + 1:]
+        tr.env[name] = (name, kind)
+        args.append((name, kind))
     if "until_await" in spec:
         # the part of an async method before (or after) its one await: the state it leaves, and the named locals
         idx = [i for i, st in enumerate(body) if any(isinstance(x, ast.Await) for x in ast.walk(st))]
@@ -683,6 +707,8 @@ SPECS = [
                  "input_changes": "dict", "output_changes": "dict"},
          params={"time": "Z", "changes": "dict"}, strings={"external": "ext_id", "expose": "exp_id"},
          until_await="after", await_is="await self.ticker(time, root_components)"),
+    dict(section="schedule_interrupt", file="core/management/schedulers/master.py", cls="MasterScheduler", func="schedule_interrupt",
+         name="gen_schedule_interrupt", fields={"wakeups": "dict"}, params={"source": "pos"}, given=("when", "Z")),
     dict(section="iobox_write", file="devices/iobox.py", cls="IoBoxDevice", func="write", name="gen_iobox_write",
          fields={"_memory": "dict", "_change_buffer": "pairs"}, params={"addr": "pos", "value": "Z"}),
     dict(section="iobox_read", file="devices/iobox.py", cls="IoBoxDevice", func="read", name="gen_iobox_read",
